@@ -285,9 +285,9 @@ theorem stEq_after (sp : Spec) (b : Bool) (st1 : State) (s : Nat) :
     StEq (stAfter sp b st1 s) { st1 with layout := some BLayout.not } := ⟨rfl, rfl, rfl⟩
 
 /-- **history_roundtrip** (lemma form) -/
-theorem history_roundtrip' (fx : Fixes) (sp : Spec) (pol : Policy) (batched : Bool) (h : List (Arg × PyVal)) :
+theorem history_roundtrip' (fx : Fixes) (sp : Spec) (pol : Policy) (batched batchable : Bool) (h : List (Arg × PyVal)) :
     ∀ st, Inv sp batched st → histOK fx sp pol batched st h = true →
-      HistDelivers fx sp pol st h (runHistory fx (scripted sp pol) (sp.layout != .single) st h) := by
+      HistDelivers fx sp pol batchable st h (runHistory fx (scripted sp pol) batchable st h) := by
   induction h with
   | nil => intro st _ _; simp [HistDelivers, runHistory, pure, Except.pure]
   | cons x h ih =>
@@ -344,7 +344,7 @@ theorem history_roundtrip' (fx : Fixes) (sp : Spec) (pol : Policy) (batched : Bo
           rw [rowsOf, zipWithAns_length pol cs grows hlen, hlen]
         obtain ⟨l1, l2, l3⟩ := wantBatch_lengths sp _ _ v s' hw
         have hcsne : cs ≠ [] := by intro h0; rw [h0] at hlen; exact hne' (List.length_eq_zero_iff.mp hlen.symm)
-        obtain ⟨lc, hlc, hmeets⟩ := learn_meets (sp.layout != .single) cs rows rw r v Rw hv hRw hRl hcsne
+        obtain ⟨lc, hlc, hmeets⟩ := learn_meets batchable cs rows rw r v Rw hv hRw hRl hcsne
           (by rw [l1, hRlen]) (by rw [l2, hRlen]) (by intro c hc; rw [l3 c hc, hRlen])
         have hinv2 := inv_stAfter' sp true (prepare fx st (.batch cs rows)).1 s'
         have hok2 : histOK fx sp pol true (stAfter sp true (prepare fx st (.batch cs rows)).1 s') h = true := by
@@ -352,7 +352,7 @@ theorem history_roundtrip' (fx : Fixes) (sp : Spec) (pol : Policy) (batched : Bo
         have := ih _ hinv2 hok2
         refine ⟨r, lc, _, hv, hmeets, this, ?_⟩
         simp only [hr, hlc]
-        cases runHistory fx (scripted sp pol) (sp.layout != Layout.single) (stAfter sp true (prepare fx st (.batch cs rows)).1 s') h <;>
+        cases runHistory fx (scripted sp pol) batchable (stAfter sp true (prepare fx st (.batch cs rows)).1 s') h <;>
           simp [Except.map, pure, Except.pure]
 
 
@@ -373,8 +373,8 @@ theorem pmf_draw_c05' (s : Nat) (as pmf : List PyVal) (v : PyVal) (hv : v.items 
     | none => simp [hq] at this
     | some q => exact ⟨q, rfl⟩
   obtain ⟨qs, h1, h2, h3, h4⟩ := toRats_of_valid pmf hnum
-  have hs1 : qs.sum = 1 := by
-    rw [h2] at hsum; simpa using hsum
+  have hs1 : 0 < qs.sum := by
+    simp only [h2, decide_eq_true_eq] at hsum; linarith [hsum.2]
   have hnn' : ∀ w ∈ qs, 0 ≤ w := by
     intro w hw
     obtain ⟨i, hi, hiw⟩ := List.getElem_of_mem hw
@@ -385,7 +385,7 @@ theorem pmf_draw_c05' (s : Nat) (as pmf : List PyVal) (v : PyVal) (hv : v.items 
     subst this
     have := List.all_eq_true.mp hnn pmf[i] (List.getElem_mem hi')
     simpa [hq1] using this
-  have hpos : 0 < Coba.C05.sum qs := by rw [Coba.C05.sum_eq, hs1]; norm_num
+  have hpos : 0 < Coba.C05.sum qs := by rw [Coba.C05.sum_eq]; exact hs1
   obtain ⟨i, w, hc, hw, hwpos⟩ := Coba.C05.choicew_weight' s as.length qs (by rw [h3, hlen]) hnn' hpos
   have hi : i < qs.length := by
     by_contra hcon
